@@ -1,14 +1,18 @@
 PROP = dict(
     gen=["gsm7"],
-    proof_files=["Properties/C08.v", "Proofs/Gsm7Code.v", "Proofs/Gsm7Proofs.v", "Proofs/Gsm7Bits.v"],
+    proof_files=["Properties/C08.v", "Proofs/Gsm7Code.v", "Proofs/Gsm7Proofs.v", "Proofs/Gsm7Bits.v", "Proofs/Gsm7Xf.v"],
     model_files=["Model/Gsm7.v"],
     trusted=["Gen/Gsm7Tables.v is the complete tabulation of the running code: every one of the 1,112,064 Unicode scalar values as a "
              "one-character text through gsm7bit.Packed.NewEncoder().Bytes and coding.GSM7BitCoding.Validate, every septet and ESC+septet "
              "through NewDecoder().Bytes (dumper: harness/gen_gsm7.go; the kernel re-checks that the rows tile the scalar values and that "
              "the septets listed pack to the octets listed)",
              "coq/Spec/Gsm0338.v and the table in harness/c08.go are two independent transcriptions of GSM 03.38 6.2.1"],
-    assumptions=["UTF-8 <-> rune conversion is Go's (range over string, string(rune)); golang.org/x/text/transform.Bytes drives the "
-                 "transformer with a zeroed destination and retries on ErrShortDst (library code; the theorems hold for every destination capacity)"],
+    assumptions=["golang.org/x/text/transform.Bytes / String / Reader / Writer are library code: they call Transform and follow its contract "
+                 "(the theorems hold for every prior content and size of the destination, for atEOF true and false and for every chunking of "
+                 "the source by a caller that presents unconsumed source again: C08_encoder_contract, C08_encoder_any_chunking); the harness "
+                 "runs every one of these entry points under a watchdog",
+                 "Go's UTF-8 decoding of the source (range over string) is modelled (utf8_dec, C08_utf8_faithful) and compared on ill-formed "
+                 "and well-formed source octets; string(rune) / WriteRune is modelled by utf8_enc"],
 )
 GEN = {"gsm7": "Gen/Gsm7Tables.v"}
 ENGINE = {"name": "gsm7", "path": "coq/Model/Gsm7.v coq/Spec/Gsm0338.v harness/c08.go harness/gen_gsm7.go", "serves_properties": ["C08"],
@@ -22,8 +26,12 @@ MANIFEST = dict(
          "GSM 03.38 on all but U+00C7/U+00E7 (C08_alphabet; D16 is a known finding with a refutation witness); ceil(7n/8) octets (C08_len), "
          "septet i LSB-first at bit 7i (C08_bit_layout), CR filler iff seven spare bits and zero spare bits otherwise (C08_filler), "
          "decode(encode t) = t except n%8=0 and t ends in CR, where exactly one trailing CR is lost (C08_roundtrip, C08_roundtrip_exact), "
-         "encoder and decoder never panic for any text / any octets / any destination capacity (C08_encode_total, C08_decode_total), "
+         "encoder and decoder never panic for any text / any octets / any destination capacity (C08_encode_total, C08_decode_total); "
+         "the transform.Transformer contract for every prior destination content, size, atEOF and chunking: nSrc = len(src) and nDst octets = encode t on "
+         "success, nothing claimed and the destination untouched otherwise (C08_encoder_contract, C08_encoder_any_destination, C08_decoder_success, "
+         "C08_encoder_any_chunking); a source the encoder accepts is the UTF-8 form of a GSM text (C08_encoder_source_is_utf8); "
          "detector true iff encoder accepts (C08_detector, C08_detector_code).",
     note="Trusted: Coq kernel + vm_compute; the Go table dumper and generators; x/text transform.Bytes; Go's UTF-8 conversion. "
-         "Known finding D16 (septet 0x09 is U+00E7, the standard has U+00C7). Fixed in the repo: D13, D14, D15. No axioms.",
+         "Known finding D16 (septet 0x09 is U+00E7, the standard has U+00C7). Fixed in the repo: D13, D14, D15, and (round 5) nSrc never "
+         "reported (String hangs), packer OR-ing into a dirty destination, chunks packed as whole messages. No axioms.",
 )
